@@ -312,7 +312,10 @@ def make_cli_inputs(case, tmp):
     drugs = ["d%d" % i for i in range(case["n_drugs"])] + ["control"]
     samples = ["s%d" % i for i in range(case["n_samples"])]
     tn = np.array([[drugs[rs.integers(len(drugs))] for _ in range(arity)] for _ in range(rows)], dtype=str)
-    # make sure every drug and sample occurs (ids dense) -- not required by Screen, keeps sizes stable
+    # every real drug occurs at least once when there is room (a screen made of controls only has no treatment
+    # ids and the sparse-combo predictor cannot index its empty V arrays -- C09's business, not this property's)
+    for r in range(min(rows, len(drugs) - 1)):
+        tn[r, 0] = drugs[r]
     td = np.where(tn == "control", 0.0, rs.choice([0.5, 1.0, 2.0], size=tn.shape))
     sn = np.array([samples[i % len(samples)] for i in range(rows)], dtype=str)
     screen = Screen(observations=rs.random(rows), sample_names=sn, plate_names=np.array(["p%d" % (i % 2) for i in range(rows)], dtype=str),
